@@ -68,6 +68,9 @@ func diffStates(ws *core.Workspace, rnd *rand.Rand, nBroken int) []State {
 				if len(opens) > 0 {
 					out = append(out, State{path, f, Mutation{Kind: "prefix", A: opens[rnd.Intn(len(opens))]}})
 				}
+				// a file without any item and without a final newline: the root body is an
+				// empty range at the end of the file
+				out = append(out, State{path, f, Mutation{Kind: "text", Text: itemlessTexts[rnd.Intn(len(itemlessTexts))]}})
 			}
 			for i := 0; i < nBroken; i++ {
 				switch i % 3 {
@@ -83,6 +86,8 @@ func diffStates(ws *core.Workspace, rnd *rand.Rand, nBroken int) []State {
 	}
 	return out
 }
+
+var itemlessTexts = []string{"", " ", "\t  ", "# only a comment", "/* x */", "// c", "\n\n  "}
 
 // buildState builds the env of a state from a fresh recipe instance.
 func buildState(rc Recipe, st State) (*core.Workspace, *core.Env, int) {
